@@ -372,9 +372,14 @@ func mk[T any](m Mode, f func(ctx context.Context, d ro.Observer[T]) ro.Teardown
 	return ro.NewUnsafeObservableWithContext(f)
 }
 
+// PanicEvent is raised by a source that meets the pseudo-notification kind 99 (C07: a failing subscribe function).
+var PanicEvent func()
+
 // Play sends one event to d; item contexts carry KeyItem=i derived from ctx.
 func Play[T any](ctx context.Context, d ro.Observer[T], i int, e Ev) {
 	switch e.K {
+	case 99:
+		PanicEvent()
 	case N:
 		var v T
 		if e.V != nil {
